@@ -1332,6 +1332,12 @@ bool RegularExpression::matchBackReference(Context* const context,
     int start = context->fMatch->getStartPos(refNo);
     int length = context->fMatch->getEndPos(refNo) - start;
 
+    // A reference from inside the group it refers to sees the start of the
+    // current attempt and the end of the previous one: the group has not
+    // been matched yet
+    if (length < 0)
+        return true;
+
     if (int(context->fLimit - offset) < length)
         return false;
 
